@@ -211,12 +211,11 @@ def solve_with_regions(make_solver: Callable[[], Any], disagree, region_map: Dic
             out["why"] = f"z3 (without regions): {s2.reason_unknown()}"
             return done("unknown")
         if r2 == z3.sat:
+            # attribute to the first region whose `not region` constraint the counterexample violates (no extra solving)
+            m2 = s2.model()
             out["known_id"] = next(iter(region_map))
             for rid, c in region_map.items():
-                s3 = make_solver()
-                s3.add(c)
-                s3.add(disagree)
-                if s3.check() == z3.unsat:
+                if z3.is_false(m2.eval(c, True)):
                     out["known_id"] = rid
                     break
             return done("known")
